@@ -152,6 +152,13 @@ theorem SlotGeom.segment_fits {u : Upd} (h : SlotGeom u) {idx : Nat} (hidx : idx
 def PairOp (B : Nat) (u0 : Upd) (op : Op) : Prop :=
   SlotOp B u0.fw.size u0.fw.idx op ∨ SlotOp B u0.par.size u0.par.idx op
 
+/-- operations of `handle_segment`: programs at or after offset `0x400` of one of the two slots -/
+def PairBody (u0 : Upd) (op : Op) : Prop :=
+  BodyOp u0.fw.size u0.fw.idx op ∨ BodyOp u0.par.size u0.par.idx op
+
+theorem PairBody.pairOp {B : Nat} {u0 : Upd} {op : Op} (h : PairBody u0 op) : PairOp B u0 op :=
+  h.elim (fun h => Or.inl h.slotOp) (fun h => Or.inr h.slotOp)
+
 /-! ## the reconstructor's stores -/
 
 theorem pGet_emits {B Q} (u : Upd) (m len : Nat) : EmitsR B Q (fun bs => bs.length = len) (pGet u m len) := by
@@ -174,7 +181,7 @@ theorem mRow_emits {B Q} (u : Upd) (m : Nat) : EmitsR B Q (fun _ => True) (mRow 
 
 /-- `ParityStorage::store` — inside the parity slot for **every** index (the bound is `write_raw`'s own check) -/
 theorem pStore_emits {B : Nat} (u : Upd) (m : Nat) (d : List Nat) (hp : HEADER_SIZE ≤ u.par.size) :
-    Emits B (SlotOp B u.par.size u.par.idx) (pStore u m d) := by
+    Emits B (BodyOp u.par.size u.par.idx) (pStore u m d) := by
   unfold pStore
   dsimp only
   simp only [throw_bind]
@@ -184,7 +191,7 @@ theorem pStore_emits {B : Nat} (u : Upd) (m : Nat) (d : List Nat) (hp : HEADER_S
 
 /-- `UpdaterMatrixStorage::set_row` — inside the parity slot for every index -/
 theorem mSetRow_emits {B : Nat} (u : Upd) (m row : Nat) (hp : HEADER_SIZE ≤ u.par.size) :
-    Emits B (SlotOp B u.par.size u.par.idx) (mSetRow u m row) := by
+    Emits B (BodyOp u.par.size u.par.idx) (mSetRow u m row) := by
   unfold mSetRow
   dsimp only
   simp only [throw_bind]
@@ -207,7 +214,7 @@ theorem strip_emits {B Q} (u : Upd) (row : Nat) : ∀ (is d : List Nat),
     · exact ih _
 
 theorem elim_emits {B : Nat} (u : Upd) (hp : HEADER_SIZE ≤ u.par.size) : ∀ (wh row : Nat) (data : List Nat),
-    EmitsR B (SlotOp B u.par.size u.par.idx) (fun _ => True) (elim u wh row data) := by
+    EmitsR B (BodyOp u.par.size u.par.idx) (fun _ => True) (elim u wh row data) := by
   intro wh
   induction wh with
   | zero => intro _ _; exact EmitsR.pure True.intro
@@ -239,7 +246,7 @@ theorem finishInner_emits {B Q} (u : Upd) (U : List Nat) (r : Nat) : ∀ (js out
 /-- `finish`: every reconstructed block goes to a data segment `< n` of the firmware slot -/
 theorem finishOuter_emits {B : Nat} (u0 : Upd) (hg : SlotGeom u0) (U : List Nat) (hU : ∀ f ∈ U, f < u0.n) :
     ∀ (is : List Nat) (u : Upd), SameSess u0 u →
-      EmitsR B (SlotOp B u0.fw.size u0.fw.idx) (fun u' => SameSess u0 u' ∧ u'.l = u.l) (finishOuter U is u) := by
+      EmitsR B (BodyOp u0.fw.size u0.fw.idx) (fun u' => SameSess u0 u' ∧ u'.l = u.l) (finishOuter U is u) := by
   intro is
   induction is with
   | nil => intro u hs; exact EmitsR.pure ⟨hs, rfl⟩
@@ -308,7 +315,7 @@ def SessInv (c : Prop) (u0 u : Upd) : Prop := SameSess u0 u ∧ (c → u.l ≤ u
 
 theorem hbData_emits {B : Nat} (c : Prop) (u0 : Upd) (hg : SlotGeom u0) (u : Upd) (hi : SessInv c u0 u)
     (index : Nat) (data : List Nat) (hidx : index < u.n) (hlen : data.length = u.bs) :
-    EmitsU B (PairOp B u0) (SessInv c u0) (fun _ => True) (hbData u index data) := by
+    EmitsU B (PairBody u0) (SessInv c u0) (fun _ => True) (hbData u index data) := by
   unfold hbData
   apply EmitsU.ite
   · intro _; exact EmitsU.pure True.intro
@@ -322,7 +329,7 @@ theorem hbData_emits {B : Nat} (c : Prop) (u0 : Upd) (hg : SlotGeom u0) (u : Upd
 
 theorem hbParity_emits {B : Nat} (c : Prop) (u0 : Upd) (hg : SlotGeom u0) (ffr : Bool) (u : Upd)
     (hi : SessInv c u0 u) (index : Nat) (data : List Nat) :
-    EmitsU B (PairOp B u0) (SessInv c u0) (fun _ => True) (hbParity ffr u index data) := by
+    EmitsU B (PairBody u0) (SessInv c u0) (fun _ => True) (hbParity ffr u index data) := by
   unfold hbParity
   have hp : HEADER_SIZE ≤ u.par.size := by
     have := (hg.of_same hi.1).parSize
@@ -350,7 +357,7 @@ theorem hbParity_emits {B : Nat} (c : Prop) (u0 : Upd) (hg : SlotGeom u0) (ffr :
 
 theorem handleBlock_emits {B : Nat} (c : Prop) (u0 : Upd) (hg : SlotGeom u0) (ffr : Bool) (index : Nat)
     (data : List Nat) :
-    EmitsU B (PairOp B u0) (SessInv c u0) (fun _ => True) (handleBlock ffr index data) := by
+    EmitsU B (PairBody u0) (SessInv c u0) (fun _ => True) (handleBlock ffr index data) := by
   rw [handleBlock_eq]
   refine EmitsU.getU.bind (fun u hi => ?_)
   apply EmitsU.ite
@@ -400,7 +407,7 @@ theorem handleBlock_emits {B : Nat} (c : Prop) (u0 : Upd) (hg : SlotGeom u0) (ff
 /-- `Updater::handle_segment`, for every fragment index and every payload -/
 theorem handleSegment_emits {B : Nat} (c : Prop) (u0 : Upd) (hg : SlotGeom u0) (ffr : Bool) (idx1 : Nat)
     (bytes : List Nat) :
-    EmitsU B (PairOp B u0) (SessInv c u0) (fun _ => True) (handleSegment ffr idx1 bytes) := by
+    EmitsU B (PairBody u0) (SessInv c u0) (fun _ => True) (handleSegment ffr idx1 bytes) := by
   unfold handleSegment
   dsimp only
   simp only [throw_bindU]
